@@ -13,7 +13,9 @@ CONSTANTS Prog,        \* Prog[i] : sequence of [op |-> "bcast", v |-> 1] / [op 
           ByzAlphabet, \* set of injectable messages
           InitChan,    \* <<>> or <<"A">> : channel all parties start on
           InitFifo,    \* FIFO flag of that channel
-          GenDepth     \* history length printed by the generator configs (0 = off)
+          GenDepth,    \* history length printed by the generator configs (0 = off)
+          LateParty    \* 99 (nobody), or a party whose links hand over an r-send of another party only after the ready quorum for that
+                       \* slot is known to it ("ready quorum before the payload": steers the generator, restricts nothing else)
 
 VARIABLES pc, hist
 mcvars == <<vars, pc, hist>>
@@ -62,9 +64,14 @@ Op(i) ==
 Useful(i, l) == net[l][i] # <<>> \/ BufferScan(ps[i], i).hit
                 \/ BufferScan(ps[i], i).res.st # ps[i]
 
+HeldBack(i, l) ==
+  /\ i = LateParty /\ net[l][i] # <<>>
+  /\ LET m == Head(net[l][i]) IN m.a = RSEND /\ m.j # i /\ ~Has(ps[i].dbar, Tag(m))
+
 StepU(i, l) ==
   /\ i \notin UseDFrom
   /\ Useful(i, l)
+  /\ ~HeldBack(i, l)
   /\ Step(i, l)
   /\ Log([e |-> "Step", i |-> i, l |-> l])
   /\ UNCHANGED pc
